@@ -38,7 +38,8 @@ def gen_scripts(ctx, quick):
     for part in ctx.pmap(one, list(enumerate(cfgs))):
         for g in part:
             s = {"np": g["np"], "ops": g["ops"], "paced": rnd.random() < 0.5, "stallMs": rnd.choice([0, 0, 5, 40]),
-                 "paceUs": rnd.choice([100, 500, 3000, 15000]), "burst": 0, "shutMs": rnd.choice([0, 0, 1, 15])}
+                 "paceUs": rnd.choice([100, 500, 3000, 15000]), "burst": 0, "shutMs": rnd.choice([0, 0, 1, 15]),
+                 "shut2Ms": rnd.choice([0, 0, 0, 1, 5])}
             if any(o["kind"] == "tracer" and o.get("a") == 1 for o in g["ops"]) and rnd.random() < 0.7:
                 # re-run tracer operations: keep the lines of several phases in the buffer together
                 s.update({"paced": True, "stallMs": rnd.choice([40, 80])})
@@ -49,6 +50,12 @@ def gen_scripts(ctx, quick):
         base = dict(scripts[rnd.randrange(len(scripts))])
         base.update({"paced": k % 3 != 2, "stallMs": rnd.choice([50, 150]), "paceUs": rnd.choice([200, 2000]),
                      "burst": rnd.choice([700, 1500, 2500])})
+        scripts.append(base)
+    # two Shutdown callers while a backlog is still being written (slow writer)
+    for k in range(3 if quick else 16):
+        base = dict(scripts[rnd.randrange(len(scripts))])
+        base.update({"paced": True, "stallMs": rnd.choice([0, 20]), "paceUs": rnd.choice([1000, 2000]), "burst": rnd.choice([300, 700]),
+                     "shutMs": 0, "shut2Ms": rnd.choice([5, 20, 60])})
         scripts.append(base)
     # pulse runs (free-running writer): the writer is woken by forced emptying at a batch boundary
     for k in range(4 if quick else 24):
